@@ -1057,5 +1057,94 @@ def records(ctx):
     return res
 
 
-RULES = [no_stale, records, snell_law, reflect_law, align_normal, on_surface, normal_gradient,
+def scatter_unit(ctx):
+    """surface scatter replaces the direction by a unit vector in the
+    hemisphere of the surface normal (and touches nothing else)."""
+    from ..vec import VecEv, V, dot
+    from ..rat import Rat, Sym, ONE as _ONE
+    P = ctx.Pall if hasattr(ctx, 'Pall') else ctx.P
+    P = ctx.P
+    res = Result('SCATTER-UNIT', 'scatter(): the scattered direction is a '
+                 'unit vector whose component along the unit surface normal '
+                 'is the non-negative root sqrt(1 - sx^2 - sy^2); '
+                 'BaseBSDF.scatter writes only the direction cosines')
+    f = None
+    for g in P.all_funcs():
+        if g.cls is None and g.name == 'scatter' and \
+                g.module.endswith('scatter.py'):
+            f = g
+    if f is None:
+        raise AnalysisError('scatter() not found')
+    res.saw(f)
+    A = Rat.atom
+    for arb in (True, False):
+        sym = Sym()
+        sym.rel['nz'] = _ONE - A('nx') * A('nx') - A('ny') * A('ny')
+
+        def scenario(q, arb=arb):
+            kind, txt = q
+            if kind == 'if' and txt.startswith('L <'):
+                return arb
+            if kind == 'if' and 'radicand' in txt and '< 0' in txt:
+                return False
+            return None
+        ev = VecEv(sym=sym, scenario=scenario)
+        for nm in ('L', 'M', 'N', 'nx', 'ny', 'nz'):
+            ev.env[nm] = A(nm)
+        ev.opaque_calls['get_point'] = lambda e, ev_: (A('px'), A('py'))
+        try:
+            ev.run(f.node.body)
+        except Inconclusive as e:
+            raise AnalysisError(f'scatter(): {e}')
+        s_ = ev.returned
+        if not isinstance(s_, V):
+            raise AnalysisError('scatter(): no vector returned')
+        n = V((A('nx'), A('ny'), A('nz')))
+        sz = ev.env.get('s_loc_z')
+        if sym.eq(dot(s_, s_), _ONE) and sz is not None and \
+                sym.eq(dot(s_, n), sz):
+            res.ok(f'scatter (reference axis {"x" if arb else "y"}): |s| = 1, '
+                   f's . n = +sqrt(radicand)')
+        else:
+            res.fail(ctx.finding('SCATTER-UNIT', f, f.node,
+                                 'the scattered direction is not a unit '
+                                 'vector in the hemisphere of the normal',
+                                 construct='scatter unit vector'))
+    b = P.func('BaseBSDF.scatter')
+    res.saw(b)
+    stores = sorted({unparse(t) for st in ast.walk(b.node)
+                     if isinstance(st, (ast.Assign, ast.AugAssign))
+                     for t in (st.targets if isinstance(st, ast.Assign)
+                               else [st.target])
+                     if isinstance(t, ast.Attribute)})
+    from ..match import find_seq
+    if stores == ['rays.L', 'rays.M', 'rays.N'] and find_seq(b, [
+            '$v = scatter_parallel(rays.L, rays.M, rays.N, nx, ny, nz, '
+            'self.scattering_function)', 'rays.L = $v[:, 0]',
+            'rays.M = $v[:, 1]', 'rays.N = $v[:, 2]']):
+        res.ok('BaseBSDF.scatter: direction components taken in order from '
+               'the scattered vectors; nothing else written')
+    else:
+        res.fail(ctx.finding('SCATTER-UNIT', b, b.node,
+                             f'BaseBSDF.scatter writes {stores}',
+                             construct='BaseBSDF.scatter stores'))
+    sp = None
+    for g in P.all_funcs():
+        if g.cls is None and g.name == 'scatter_parallel':
+            sp = g
+    if sp is None:
+        raise AnalysisError('scatter_parallel not found')
+    res.saw(sp)
+    from ..match import find
+    if find(sp, '$v[$i] = scatter(L[$i], M[$i], N[$i], nx[$i], ny[$i], '
+                'nz[$i], get_point)'):
+        res.ok('scatter_parallel: ray i gets its own direction and normal')
+    else:
+        res.fail(ctx.finding('SCATTER-UNIT', sp, sp.node,
+                             'scatter_parallel mixes rays',
+                             construct='scatter_parallel indexing'))
+    return res
+
+
+RULES = [no_stale, records, scatter_unit, snell_law, reflect_law, align_normal, on_surface, normal_gradient,
          frames, trace_order, same_medium, nonfinite]
